@@ -91,9 +91,15 @@ class ModuleInfo:
 class Repo:
     """Parsed view of /repo/mlinsights (optionally with an overlay)."""
 
-    def __init__(self, root: str = "/repo", overlay: Optional[Dict[str, str]] = None):
+    def __init__(self, root: str = "/repo", overlay: Optional[Dict[str, str]] = None, look_through_helpers: bool = True):
         self.root = root
         self.overlay = dict(overlay or {})
+        self.known_functions = None
+        self.expanded_helpers: Dict[str, List[str]] = {}
+        if look_through_helpers:
+            from .inline import load_known
+
+            self.known_functions = load_known()
         self.modules: Dict[str, ModuleInfo] = {}
         self.by_path: Dict[str, ModuleInfo] = {}
         self.all_functions: Dict[str, FunctionInfo] = {}
@@ -137,6 +143,17 @@ class Repo:
             if is_pkg:
                 parts = parts[:-1]
             name = ".".join(parts)
+            if self.known_functions is not None:
+                # E-INL: calls to private helpers the rule tables do not know are
+                # expanded in place (see engine/inline.py)
+                from .inline import expand_unknown_helpers
+
+                try:
+                    tree, exp = expand_unknown_helpers(tree, name, self.known_functions)
+                    if exp:
+                        self.expanded_helpers[rel] = sorted(set(exp))
+                except RecursionError:  # pragma: no cover
+                    tree = ast.parse(src, filename=rel)
             mi = ModuleInfo(name, rel, src, tree, is_pkg)
             self.modules[name] = mi
             self.by_path[rel] = mi
